@@ -153,6 +153,11 @@ def Param.accepts (p : Param V) (x : V) : Bool :=
   | .ok _ => true
   | .error _ => false
 
+/-- `Parameter.change_fixed_value(value)`: `ValueError` for a floating parameter, otherwise
+`self.initial = value; self.value = value` (the value setter then sees `v == initial`). -/
+def Param.changeFixedValue (p : Param V) (v : V) : Except Err (Param V) :=
+  if !p.isfixed then .error .valueError else Param.setValue { p with initial := v } v
+
 end ops
 
 /-- value of one entry of a `make_params_fixed` request dictionary -/
@@ -161,6 +166,20 @@ inductive FixVal (V : Type)
   | cur                 -- Python `None`: fix at the current value
   | val (v : V)
   deriving DecidableEq, Repr
+
+def FixVal.isCur {V : Type} : FixVal V → Bool
+  | .cur => true
+  | _ => false
+
+/-- the float the value is cast to (`none` = `float_cast` raises); Python `None` stays `None` -/
+def FixVal.toOption? {V : Type} : FixVal V → Option (Option V)
+  | .bad => none
+  | .cur => some none
+  | .val v => some (some v)
+
+def FixVal.ofOption {V : Type} : Option V → FixVal V
+  | none => .cur
+  | some v => .val v
 
 /-- what the fix / float loop does to one parameter (`f` = the per-parameter action) -/
 def applyF {V : Type} (f : Param V → Except Err (Option (Param V))) (p : Param V) : Param V :=
@@ -273,17 +292,33 @@ def fixF (req : List (String × FixVal V)) (p : Param V) : Except Err (Option (P
     | .cur => .ok (some (p.makeFixed none))
     | .val v => .ok (some (p.makeFixed (some v)))
 
-/-- entry of the `make_params_floating` request dictionary after `_parse_float_param_dict_entry` -/
-abbrev FloatEntry (V : Type) := Option V × Option V × Option V
+/-- entry of the `make_params_floating` request dictionary: `None` ↦ `entry cur cur cur`, a scalar
+`x` ↦ `entry x cur cur`, a sequence ↦ its first three items (`short`: fewer than three, `e[2]` raises
+`IndexError` in `_parse_float_param_dict_entry`); an item may be not castable to float (`bad`). -/
+inductive FloatEntry (V : Type)
+  | short
+  | entry (ini lo hi : FixVal V)
+  deriving Repr
 
+/-- per-parameter action of `make_params_floating(req)` with the checks of the validation pass in the
+order of the code: already floating (`ValueError`), entry parse (`IndexError`),
+`_get_floating_settings`: `None` bounds without a current bound (`ValueError`), `float_cast`
+(`TypeError`), range check (`ValueError`). -/
 def floatF (req : List (String × FloatEntry V)) (p : Param V) : Except Err (Option (Param V)) :=
   match dget req p.name with
   | none => .ok none
-  | some (ini, lo, hi) =>
+  | some e =>
     if !p.isfixed then .error .valueError else
-    match p.makeFloating ini lo hi with
-    | .ok p' => .ok (some p')
-    | .error e => .error e
+    match e with
+    | .short => .error .indexError
+    | .entry ini lo hi =>
+      if (lo.isCur && p.valmin.isNone) || (hi.isCur && p.valmax.isNone) then .error .valueError else
+      match ini.toOption?, lo.toOption?, hi.toOption? with
+      | some i, some l, some h =>
+        (match p.makeFloating i l h with
+          | .ok p' => .ok (some p')
+          | .error e => .error e)
+      | _, _, _ => .error .typeError
 
 def makeParamsFixed (s : PSet V) (req : List (String × FixVal V)) : PSet V × Except Err Unit :=
   editAll (fixF req) s
@@ -309,6 +344,49 @@ def setValue (s : PSet V) (n : String) (v : V) : PSet V × Except Err Unit :=
   | .ok ps' => ({ s with params := ps' }, .ok ())
   | .error e => (s, .error e)
 
+/-- `paramset.params[i].change_fixed_value(v)` for the parameter called `n`: the Parameter object is
+changed, **no cache of the set is touched** (the docstring of `update_fixed_param_value_cache` asks the
+caller to call it afterwards). -/
+def changeFixedAux (n : String) (v : V) : List (Param V) → Except Err (List (Param V))
+  | [] => .error .keyError
+  | p :: ps =>
+    if p.name = n then
+      match p.changeFixedValue v with
+      | .ok p' => .ok (p' :: ps)
+      | .error e => .error e
+    else match changeFixedAux n v ps with
+      | .ok ps' => .ok (p :: ps')
+      | .error e => .error e
+
+def changeFixedRaw (s : PSet V) (n : String) (v : V) : PSet V × Except Err Unit :=
+  match changeFixedAux n v s.params with
+  | .ok ps' => ({ s with params := ps' }, .ok ())
+  | .error e => (s, .error e)
+
+end ops
+
+/-- `for i, x in enumerate(xs): cache[i] = x` (in place; `IndexError` when the cache is too short) -/
+def overwrite : List V → List V → List V × Except Err Unit
+  | cache, [] => (cache, .ok ())
+  | [], _ :: _ => ([], .error .indexError)
+  | _ :: cache, x :: xs => let r := overwrite cache xs; (x :: r.1, r.2)
+
+/-- `update_fixed_param_value_cache()`: `for (i, param) in enumerate(self.fixed_params):
+self._fixed_param_values[i] = param.value` with `fixed_params = _params[_params_fixed_mask]`. -/
+def updateFixedValueCache (s : PSet V) : PSet V × Except Err Unit :=
+  match maskSel s.params s.fixedMask with
+  | .error e => (s, .error e)
+  | .ok fps => let r := overwrite s.fixedVals (fps.map (·.value)); ({ s with fixedVals := r.1 }, r.2)
+
+section ops
+variable [LT V] [DecidableLT V]
+
+/-- the documented protocol: change the fixed value, then refresh the cache -/
+def changeFixedValue (s : PSet V) (n : String) (v : V) : PSet V × Except Err Unit :=
+  match s.changeFixedRaw n v with
+  | (s', .ok _) => s'.updateFixedValueCache
+  | (s', .error e) => (s', .error e)
+
 end ops
 
 /-- `ParameterSet(params=…)`: add at the back one after the other -/
@@ -332,6 +410,20 @@ def union (a b : PSet V) : Except Err (PSet V) :=
   match addAll empty a.params with
   | .ok u => addMissing u b.params
   | .error e => .error e
+
+/-- the loop `for paramset_i in paramsets[1:]` of `ParameterSet.union` -/
+def addMissingAll : PSet V → List (PSet V) → Except Err (PSet V)
+  | u, [] => .ok u
+  | u, b :: bs => match addMissing u b.params with
+    | .ok u' => addMissingAll u' bs
+    | .error e => .error e
+
+/-- `ParameterSet.union(*paramsets)` for any number of sets (`ValueError` for none) -/
+def unionN : List (PSet V) → Except Err (PSet V)
+  | [] => .error .valueError
+  | a :: rest => match addAll empty a.params with
+    | .ok u => addMissingAll u rest
+    | .error e => .error e
 
 /-! #### views (as the properties / methods compute them, from the caches) -/
 
@@ -726,6 +818,8 @@ inductive Op (V : Type)
   | float (req : List (String × PSet.FloatEntry V))
   | setv (n : String) (v : V)
   | union (other : List (PArgs V)) (left : Bool)     -- `union(self, other)` / `union(other, self)`
+  | unionN (others : List (List (PArgs V))) (pos : Nat)   -- `union(o_1, …, self at position pos, …, o_k)`
+  | chfix (n : String) (v : V)      -- `change_fixed_value(v)` on the object + `update_fixed_param_value_cache()`
   | copy
   | map (a : PArgs V) (models : Option (List Nat)) (al : AliasArg)   -- mapper histories only
   deriving Repr
@@ -747,6 +841,19 @@ def liftE {σ : Type} (s : σ) : Except Err σ → σ × Except Err Unit
   | .ok s' => (s', .ok ())
   | .error e => (s, .error e)
 
+/-- the operand sets of an n-ary union: `ParameterSet([Parameter(…), …])` one after the other -/
+def createSets : List (List (PArgs V)) → Except Err (List (PSet V))
+  | [] => .ok []
+  | o :: os => match createAll o with
+    | .error e => .error e
+    | .ok ps => match PSet.addAll PSet.empty ps with
+      | .error e => .error e
+      | .ok t => match createSets os with
+        | .ok ts => .ok (t :: ts)
+        | .error e => .error e
+
+def insertAt {α : Type} (l : List α) (pos : Nat) (x : α) : List α := l.take pos ++ x :: l.drop pos
+
 /-- one edit of a `ParameterSet` history -/
 def PSet.step (s : PSet V) : Op V → PSet V × Except Err Unit
   | .add a front => match a.create with
@@ -760,6 +867,10 @@ def PSet.step (s : PSet V) : Op V → PSet V × Except Err Unit
     | .ok ps => match PSet.addAll PSet.empty ps with
       | .error e => (s, .error e)
       | .ok t => liftE s (if left then PSet.union s t else PSet.union t s)
+  | .unionN others pos => match createSets others with
+    | .error e => (s, .error e)
+    | .ok ts => liftE s (PSet.unionN (insertAt ts pos s))
+  | .chfix n v => s.changeFixedValue n v
   | .copy => (s, .ok ())
   | .map _ _ _ => (s, .error .typeError)
 
@@ -771,6 +882,7 @@ def PMM.step (s : PMM V) : Op V → PMM V × Except Err Unit
   | .fix req => let r := s.gps.makeParamsFixed req; ({ s with gps := r.1 }, r.2)
   | .float req => let r := s.gps.makeParamsFloating req; ({ s with gps := r.1 }, r.2)
   | .setv n v => let r := s.gps.setValue n v; ({ s with gps := r.1 }, r.2)
+  | .chfix n v => let r := s.gps.changeFixedValue n v; ({ s with gps := r.1 }, r.2)
   | _ => (s, .error .typeError)
 
 /-- run a history; rejected operations are recorded and the run continues from the post-state -/
@@ -801,6 +913,23 @@ def editAll (f : Param V → Except Err (Option (Param V))) (ps : List (Param V)
 def unionList (a b : List (Param V)) : List (Param V) :=
   a ++ b.filter (fun p => !(a.map (·.name)).contains p.name)
 
+/-- union of any number of lists, left to right (the caller guarantees at least one) -/
+def unionAll : List (List (Param V)) → List (Param V)
+  | [] => []
+  | a :: rest => rest.foldl unionList a
+
+/-- the parameter lists of the operand sets: a repeated name inside one operand is a `KeyError` -/
+def createLists : List (List (PArgs V)) → Except Err (List (List (Param V)))
+  | [] => .ok []
+  | o :: os => match createAll o with
+    | .error e => .error e
+    | .ok ps =>
+      if (ps.map (·.name)).Nodup then
+        match createLists os with
+        | .ok pss => .ok (ps :: pss)
+        | .error e => .error e
+      else .error .keyError
+
 def step (ps : List (Param V)) : Op V → List (Param V) × Except Err Unit
   | .add a front => match a.create with
     | .error e => (ps, .error e)
@@ -820,6 +949,14 @@ def step (ps : List (Param V)) : Op V → List (Param V) × Except Err Unit
       if (os.map (·.name)).Nodup then
         (if left then unionList ps os else unionList os ps, .ok ())
       else (ps, .error .keyError)
+  | .unionN others pos => match createLists others with
+    | .error e => (ps, .error e)
+    | .ok oss => (unionAll (insertAt oss pos ps), .ok ())
+  | .chfix n v => match ps.find? (fun p => p.name = n) with
+    | none => (ps, .error .keyError)
+    | some p => match p.changeFixedValue v with
+      | .error e => (ps, .error e)
+      | .ok _ => (ps.map (fun q => if q.name = n then { q with initial := v, value := v } else q), .ok ())
   | .copy => (ps, .ok ())
   | .map _ _ _ => (ps, .error .typeError)
 
